@@ -12,9 +12,9 @@ import (
 	"github.com/gethiox/HIDI/internal/pkg/midi"
 )
 
-// F-16a: the OpenRGB server is there but has no controller for the device: the TCP connection of the device stayed
+// F-16b: the OpenRGB server is there but has no controller for the device: the TCP connection of the device stayed
 // open after ProcessEvents has returned (nothing ever closes the client).
-func TestFinding_F16a_OpenRGBConnectionClosedWhenDeviceEnds(t *testing.T) {
+func TestFinding_F16b_OpenRGBConnectionClosedWhenDeviceEnds(t *testing.T) {
 	go func() {
 		for range logger.Messages {
 		}
